@@ -28,6 +28,10 @@ RULE = ("posterior(): on finished real runs (both kernels x both resamplers x bl
         "(Model.Run.notTermination, Float; ESS within 1e-9, decision exact unless ESS is within rounding of n_total), also on a sampler "
         "with an empty history. run(): the real run returned, beta <= 1, and both model guards say stop on its final state; evidence() "
         "equals the recomputation from the stored history bit for bit; also for runs resumed from a checkpoint with a larger n_total. "
+        "All posterior / guard / epilogue suites also run on CONSTRUCTED runs that stop with beta strictly inside (1-1e-4, 1) (a seeded "
+        "fresh run of a Gaussian likelihood whose width is solved from the seed's warm-up draws so that the first annealing step "
+        "lands on 1-2^-14): evidence(), posterior weights / logw and the guard's ESS must be those at beta = 1; run-epilogue also "
+        "compares evidence() with an independent numpy recomputation of the MIS evidence at beta = 1 (1e-8 relative). "
         "Second pass: the posterior suites also run on UNDECLARED blobs (blobs_dtype=None, likelihood returns a float / three floats / "
         "a string -> object dtype) through the whole-routine model with optional blobs (Model.PosteriorX.computePosteriorWith: blob gate "
         "from (declared, current blobs present, committed blob arrays), guarded gathers, return selector). "
@@ -407,6 +411,78 @@ def _term_cases(c, drv, rng, s):
     c.sample({"op": lines[1], "impl": impl[1]})
 
 
+# ------------------------------------------------------------------ runs that STOP with beta strictly inside (1 - 1e-4, 1)
+# The termination test guarantees only 1 - beta < 1e-4.  A generic run ends on exactly 1.0 (about 1 in 10^3 does not), so such
+# runs are CONSTRUCTED: an ordinary seeded fresh run of a Gaussian likelihood `c * g(x) + K` whose width c is solved for, from
+# the seed's own warm-up draws, such that the ESS-limited temperature of the first annealing step lies in the middle of the top
+# cell [1 - 2^-14, 1) of the bisection of `_find_beta_upper_limit` (BETA_TOLERANCE = 1e-4): with one warm-up batch the weights
+# are exp(beta * c * g), so the ESS depends on beta * c only.  The step lands on beta = 1 - 2^-14; with n_total <= ESS the run
+# stops there.  K is the additive constant of a 10^4-point likelihood: it makes Z(beta_T) and Z(1) differ by ~0.5 nats.
+_K_INSIDE = -9189.385332046727
+
+
+def _g2(x):
+    return -2.0 * float(np.sum(x ** 2))
+
+
+def _ess_c(c, v):
+    a = c * v
+    w = np.exp(a - np.max(a))
+    return float(np.sum(w) ** 2 / np.sum(w * w))
+
+
+def _inside_run(seed, kernel, n_total=1, resample="mult", n=32, ratio=0.5):
+    """-> (sampler, likelihood, info) of a run that returned with 1 - 1e-4 < beta < 1, or None if the construction did not
+    land there (then nothing is claimed)"""
+    from tempest import Sampler
+
+    def mk(like):
+        return Sampler(lambda u: 20.0 * u - 10.0, like, 2, n_particles=n, ess_ratio=ratio, clustering=False, sample=kernel,
+                       resample=resample, random_state=seed, n_steps=1, n_max_steps=2)
+    with _quiet(), warnings.catch_warnings():
+        warnings.simplefilter("ignore")
+        s0 = mk(lambda x: _g2(x) + _K_INSIDE)
+        s0.run(n_total=1, progress=False)
+        x0 = s0.state.get_history("x", index=0)
+        v = np.array([_g2(x) for x in x0])
+        lo, hi = 0.0, 1.0
+        while _ess_c(hi, v) >= ratio * n and hi < 1e12:
+            hi *= 2.0
+        for _ in range(200):
+            mid = 0.5 * (lo + hi)
+            if _ess_c(mid, v) >= ratio * n:
+                lo = mid
+            else:
+                hi = mid
+        c = lo / (1.0 - 2.0 ** -15)
+
+        def like(x):
+            return c * _g2(x) + _K_INSIDE
+        s = mk(like)
+        s.run(n_total=n_total, progress=False)
+    beta = s.state.get_current("beta")
+    if not (np.array_equal(s.state.get_history("x", index=0), x0) and 1.0 - 1e-4 < beta < 1.0):
+        return None
+    return s, like, {"inside": True, "seed": seed, "kernel": kernel, "resample": resample, "n_total": n_total, "c": c, "beta": beta}
+
+
+def _mis_at_one(state):
+    """independent recomputation (plain numpy, max-shifted) of the balance-heuristic MIS log-weights and evidence at beta = 1
+    from the stored history: logw_s = l_s - log sum_t (n_t/N) exp(beta_t l_s - z_t),  Z = log mean exp(logw)"""
+    T = state.get_history_length()
+    beta_t = np.array([float(b) for b in state.get_history("beta")])
+    logz_t = np.array([float(z) for z in state.get_history("logz")])
+    logl_t = [np.asarray(state.get_history("logl", index=t), dtype=float) for t in range(T)]
+    n_t = np.array([len(l) for l in logl_t], dtype=float)
+    logl = np.concatenate(logl_t)
+    comp = logl[:, None] * beta_t[None, :] - logz_t[None, :] + np.log(n_t / n_t.sum())[None, :]
+    m = comp.max(axis=1)
+    logw = logl - (m + np.log(np.exp(comp - m[:, None]).sum(axis=1)))
+    M = logw.max()
+    lse = M + np.log(np.exp(logw - M).sum())
+    return logw - lse, lse - np.log(logw.size)
+
+
 # ------------------------------------------------------------------ second pass: the entry of run_sampling, n_total flow
 def _observed_run(s, n_total, resume=None, save_every=None):
     """run `s.run(n_total, resume_state_path=resume, save_every=save_every)` on the REAL sampler, observing — without changing —
@@ -741,11 +817,26 @@ def correspond(tier):
     from tempest import Sampler
     s_fresh = Sampler(lambda u: 8.0 * u - 4.0, _L1, 2, n_particles=32, clustering=False)
     _guard_history_cases(ch, drv, rng, s_fresh)
+    # runs that stop with beta STRICTLY inside the tolerance (constructed, see _inside_run): evidence(), the posterior weights and
+    # the guard's ESS must still be those at beta = 1
+    irng = common.rng_for("C12.inside")
+    configs += [(k, r, "@inside") for k, r in ((("rwm", "mult"), ("tpcn", "syst")) if tier == "quick" else
+                                                (("rwm", "mult"), ("tpcn", "syst"), ("rwm", "syst"), ("tpcn", "mult")) * 3)]
     for kernel, resample, form in configs:
-        blobs = form
-        s, seed = _make_run(rng, kernel, resample, form)
-        _posterior_cases(cp, cc, drv, rng, s, form, tier, seed,
-                         runinfo={"kernel": kernel, "resample": resample, "blobs": form, "n_total": 96, "seed": seed})
+        if form == "@inside":
+            seed = irng.randrange(2 ** 31)
+            got = _inside_run(seed, kernel, n_total=irng.choice([1, 8]), resample=resample)
+            if got is None:
+                cr.count("inside-tolerance construction did not land (nothing claimed)")
+                continue
+            s, form = got[0], None
+            blobs = None
+            _posterior_cases(cp, cc, drv, rng, s, None, tier, seed, runinfo=None)
+        else:
+            blobs = form
+            s, seed = _make_run(rng, kernel, resample, form)
+            _posterior_cases(cp, cc, drv, rng, s, form, tier, seed,
+                             runinfo={"kernel": kernel, "resample": resample, "blobs": form, "n_total": 96, "seed": seed})
         _term_cases(ct, drv, rng, s)
         _guard_history_cases(ch, drv, rng, s)
         # run epilogue: run() returned => model guard says stop; evidence() == Z(1) recomputed from the stored history
@@ -763,6 +854,12 @@ def correspond(tier):
         cr.count(f"blob_form={form}")
         ev = s.evidence()[0]
         beta_f = st.get_current("beta")
+        cr.count("beta at return == 1" if beta_f == 1.0 else "beta at return strictly inside (1-1e-4, 1)")
+        # independent recomputation of the MIS evidence at beta = 1 (toleranced: different summation order)
+        _, z_ind = _mis_at_one(st)
+        if abs(float(ev) - float(z_ind)) > 1e-8 * (1.0 + abs(float(z_ind))):
+            cr.disagree(input={"kernel": kernel, "resample": resample, "blobs": blobs, "seed": seed, "beta": beta_f},
+                        impl={"evidence": ev}, model={"MIS evidence at beta=1, independent recomputation": z_ind})
         # the whole-guard model must say stop too, unless the ESS sits within rounding of n_total
         mh_ok = mh.split(" ")[0] == "0" or abs(ess - s._core.n_total) <= 1e-9 * (1.0 + ess)
         if m != "0" or not mh_ok or f2hex(ev) != f2hex(z1) or not (beta_f <= 1.0):
@@ -808,8 +905,10 @@ def correspond(tier):
 
 
 # ------------------------------------------------------------------ property oracle on the real code
-def oracle_run(s, blobs, extra_params=()):
-    """postconditions of run() + posterior contract for all 16 combinations; returns list of violations"""
+def oracle_run(s, blobs, extra_params=(), like=None):
+    """postconditions of run() + posterior contract for all 16 combinations; returns list of violations.
+    `like`: the (pure) log-likelihood of the run, default `_L1`"""
+    like = like or _L1
     from tempest.tools import effective_sample_size
     bad = []
     form = _form(blobs)
@@ -826,6 +925,26 @@ def oracle_run(s, blobs, extra_params=()):
         bad.append({"what": f"run() returned with ESS {ess!r} < n_total {s._core.n_total}"})
     if s.evidence()[0] != z1:
         bad.append({"what": f"evidence() {s.evidence()[0]!r} != evidence recomputed from the stored history {z1!r}"})
+    # the same two, against a recomputation that shares no code with the package (tolerance: summation order only)
+    lw_ind, z_ind = _mis_at_one(st)
+    if abs(float(s.evidence()[0]) - float(z_ind)) > 1e-8 * (1.0 + abs(float(z_ind))):
+        bad.append({"what": f"run() returned at beta={beta!r}: evidence() {float(s.evidence()[0])!r} != MIS evidence at beta=1 recomputed from the "
+                            f"stored history {float(z_ind)!r}"})
+    with warnings.catch_warnings():
+        warnings.simplefilter("ignore")
+        try:
+            pw = s.posterior(resample=False, trim_importance_weights=False, return_logw=True)
+        except Exception:  # noqa  (reported by the loop below)
+            pw = None
+    if pw is not None and len(pw) == 4 and len(pw[1]) == len(logw):
+        w1 = np.exp(logw - np.max(logw))
+        w1 /= np.sum(w1)
+        if not np.array_equal(pw[1], w1) or not np.array_equal(pw[3], logw) \
+                or not np.allclose(pw[1], np.exp(lw_ind), rtol=1e-7, atol=1e-12):
+            bad.append({"what": f"run() returned at beta={beta!r}: posterior(trim_importance_weights=False) weights / logw are not the normalised "
+                                f"beta=1 weights of the stored history (max |dw| = {float(np.max(np.abs(pw[1] - np.exp(lw_ind)))):.3e})"})
+    if bad:
+        return bad
     pool_x = st.get_history("x", flat=True)
     pool_l = st.get_history("logl", flat=True)
     pool_b = st.get_history("blobs", flat=True) if blobs else None
@@ -864,7 +983,7 @@ def oracle_run(s, blobs, extra_params=()):
                     bad.append({"what": f"posterior row {k}: no stored particle has this (x, logl, blob, logw) combination", "opts": opts})
                     break
                 # the likelihood is a pure function: the row's logl / blob must be those of the row's x
-                if _L1(x[k]) != l[k] or (bl is not None and not _blob_eq(bl[k], _blob_of(form, x[k]))):
+                if like(x[k]) != l[k] or (bl is not None and not _blob_eq(bl[k], _blob_of(form, x[k]))):
                     bad.append({"what": f"posterior row {k}: logl / blob are not those of the x in the same row (blob form {form})", "opts": opts})
                     break
             if bad:
@@ -968,6 +1087,27 @@ def oracle_resume(rng):
     return bad
 
 
+def oracle_inside(seeds, kernels=("rwm", "tpcn"), n_totals=(1, 8)):
+    """the statement on runs that stop with beta strictly inside (1 - 1e-4, 1)"""
+    bad = []
+    for seed in seeds:
+        for kernel in kernels:
+            for nt in n_totals:
+                got = _inside_run(seed, kernel, n_total=nt)
+                if got is None:
+                    continue
+                s, like, info = got
+                for b in oracle_run(s, None, like=like):
+                    b.update({"config": {"kernel": kernel, "resample": "mult", "blobs": False, "n_total": nt,
+                                         "likelihood": f"{info['c']!r} * (-2 |x|^2) + {_K_INSIDE!r}, prior 20u-10, n_particles=32, ess_ratio=0.5, "
+                                                       f"clustering=False, n_steps=1, n_max_steps=2, random_state={seed}"},
+                              "seed": seed, "inside": True, "beta_at_return": info["beta"]})
+                    bad.append(b)
+                if bad:
+                    return bad
+    return bad
+
+
 class _Fixed:
     """stands in for the rng in _make_run: replays a recorded seed"""
     def __init__(self, seed):
@@ -980,6 +1120,10 @@ class _Fixed:
 def search(tier, hints):
     rng = common.rng_for("C12.search")
     found = []
+    try:
+        found += oracle_inside([rng.randrange(2 ** 31) for _ in range(2 if tier == "quick" else 6)])
+    except Exception as e:  # noqa
+        found.append({"what": f"run stopping inside the tolerance raised {type(e).__name__}: {e}", "config": ["inside"]})
     try:
         found += oracle_resume(rng)
     except Exception as e:  # noqa
@@ -1033,6 +1177,9 @@ def replay(obj):
     import random
     if f.get("resume"):
         b = oracle_resume(common.rng_for("C12.search"))
+        return {"fails": bool(b), "detail": b[:1]}
+    if f.get("inside"):
+        b = oracle_inside([f["seed"]], kernels=(f["config"]["kernel"],), n_totals=(f["config"]["n_total"],))
         return {"fails": bool(b), "detail": b[:1]}
     cfg, seed = f["config"], f["seed"]
     from tempest import Sampler
